@@ -205,6 +205,22 @@ func RunCatalogue(repo, verif, which, tier string, onlyControl bool) ([]MutantRe
 		}
 		sel = append(sel, m)
 	}
+	// violations already present on the unmodified tree do not count as detections
+	props := map[string]bool{}
+	for _, m := range sel {
+		props[m.Property] = true
+	}
+	for p := range props {
+		base, err := RunProperty(repo, "quick", p, 0)
+		if err != nil {
+			return nil, err
+		}
+		for _, o := range base.Obls {
+			if o.Verdict != core.Held {
+				known[o.Key()] = true
+			}
+		}
+	}
 	out := make([]MutantResult, len(sel))
 	sem := make(chan struct{}, 8)
 	var wg sync.WaitGroup
